@@ -13,7 +13,7 @@ structure WInv (w : W) : Prop where
 
 theorem init_inv : WInv {} := ⟨fun h => absurd h (by decide), rfl, rfl⟩
 
-theorem step_inv (w : W) (a : Actor) (h : WInv w) : WInv (step true true w a) := by
+theorem step_inv (w : W) (a : Actor) (h : WInv w) : WInv (step true true true w a) := by
   obtain ⟨ha, hc, hp⟩ := h
   cases a with
   | early => exact ⟨ha, hc, hp⟩
@@ -63,14 +63,14 @@ theorem step_inv (w : W) (a : Actor) (h : WInv w) : WInv (step true true w a) :=
         omega
       · exact ⟨ha, hc, hp⟩
 
-theorem run_inv : ∀ (as : List Actor) (w : W), WInv w → WInv (run true true w as)
+theorem run_inv : ∀ (as : List Actor) (w : W), WInv w → WInv (run true true true w as)
   | [], _, h => h
   | a :: as, w, h => run_inv as _ (step_inv w a h)
 
 /-- the I/O thread alone (no sender moves) empties the queue within three of its steps, from every state satisfying the invariant
 in which no sender holds the lock -/
 theorem io_alone (w : W) (h : WInv w) (hf : w.crit = .free) :
-    (run true true w [.io, .io, .io]).cmds = 0 ∧ (run true true w [.io, .io, .io]).taken = w.accepted := by
+    (run true true true w [.io, .io, .io]).cmds = 0 ∧ (run true true true w [.io, .io, .io]).taken = w.accepted := by
   obtain ⟨ha, hc, _⟩ := h
   cases hio : w.io with
   | waiting =>
